@@ -222,6 +222,7 @@ func emit(w *hx.Writer, o *hx.Opts, id, kind string, c *msgx.Case) {
 
 func main() {
 	o := hx.ParseFlags()
+	msgx.Quiesce() // the idle process, before anything is started
 	w := hx.NewWriter(o)
 	defer w.Close()
 	for _, cc := range catalogue(o) {
@@ -248,6 +249,29 @@ func main() {
 			continue
 		}
 		w.Emit("copy", hx.Case{ID: id, Coq: msgx.RunCopy(hx.NewRNG(o.Seed, id)), Desc: map[string]any{"kind": "copy"}, FKey: "copy"})
+	}
+	nn := 8
+	if o.Tier == "thorough" {
+		nn = 150
+	}
+	if o.N > 0 {
+		nn = 1 + o.N/100
+	}
+	for i := 0; i < nn; i++ {
+		id := fmt.Sprintf("net/%d", i)
+		if !o.Want(id) {
+			continue
+		}
+		nc := msgx.GenNetCase(hx.NewRNG(o.Seed, id), i == 0)
+		coq, tally, err := nc.Run(func() *hx.RNG { return hx.NewRNG(o.Seed, id+"/render") })
+		if err != nil {
+			fmt.Fprintf(os.Stderr, "case %s: %v\n", id, err)
+			os.Exit(3)
+		}
+		for k, v := range tally {
+			w.Tally(k, v)
+		}
+		w.Emit("servers", hx.Case{ID: id, Coq: coq, Desc: map[string]any{"kind": "servers", "queries": len(nc.Queries), "boundary": i == 0}, FKey: "servers"})
 	}
 	n := o.Count(700, 15000)
 	for i := 0; i < n; i++ {
